@@ -210,6 +210,8 @@ func (w *Worker) runPath(prefix []Decision) {
 	r.backings = map[*Value]*Backing{}
 	r.bufBacking = map[*Value]*Backing{}
 	r.pools = map[*Value]*PoolObj{}
+	r.atomicVals = map[*Value]*anyBox{}
+	r.syncMaps = map[*Value]*MapV{}
 	w.solver.Push()
 	r.execute(ex.Entry)
 	if r.outcome == OutOK && ex.WitnessEvery > 0 && ex.wantWitness() {
